@@ -217,6 +217,10 @@ def gen_op(rng, rows, fresh):
     if op in ('append_list', 'append_ra'):
         k = int(rng.integers(1, 4))
         newrows = [fresh.take(int(rng.integers(1, 6))) for _ in range(k)]
+        if rng.random() < 0.35:
+            # rows of a wider element type (fractions onto an integer or
+            # boolean array): the grown array takes the common type
+            newrows = [x.astype(np.float64) + 0.5 for x in newrows]
         return op, (newrows,)
     if op in ('binop', 'rbinop', 'aug'):
         # division-like operators only where the divisor is a non-zero
@@ -392,6 +396,8 @@ def run_case(ctx, kind, rng, idx):
             elif op in ('append_list', 'append_ra'):
                 (nr,) = args
                 new_rows = new_rows + [x.copy() for x in nr]
+                rt = np.result_type(*[x.dtype for x in new_rows])
+                new_rows = [x.astype(rt) for x in new_rows]
                 if op == 'append_ra':
                     a.append(R([x.copy() for x in nr]))
                 else:
